@@ -789,8 +789,17 @@ func (c *hCtx) runSeqCheck(name string, sc seqCheck) {
 			wantP = int(f)
 		}
 	}
-	for _, n := range c.sizes(sc.min, sc.quick, sc.thorough) {
-		for _, sq := range famSeqs(n, c.rng, nrand) {
+	sizes := c.sizes(sc.min, sc.quick, sc.thorough)
+	wrapN := 8 * 65600 // more than 2^16 equal bytes / blocks: a narrowed counter type wraps
+	if strings.HasSuffix(name, "-bytes") || name == "poker" {
+		sizes = append(sizes, wrapN)
+	}
+	for _, n := range sizes {
+		fams := famSeqs(n, c.rng, nrand)
+		if n == wrapN {
+			fams = fams[:2] // zeros, ones
+		}
+		for _, sq := range fams {
 			for _, p := range sc.params {
 				if wantFam != "" && (sq.Name != wantFam || n != wantN || p != wantP) {
 					continue
